@@ -24,6 +24,8 @@ def run(ctx, model_ok, deep=False):
          "generate failing in the callback, on a weak key, on an inadmissible callback choice, from every prior error state: NULL <=> flag, flag => message, token => clean", False),
         ("builder-routes", S.builder_routes_suite, S.falsify_builder_routes,
          "unusable keys/algorithms on the builder (inadmissible pairs, JWT_ALG_INVAL, weak or cross-family keys, public keys) through setkey and callback routes: NULL <=> flag with message", True),
+        ("callback-admission", S.callback_admission_suite, S.falsify_accept,
+         "keys chosen by the callback (incl. JWKs whose use/key_ops say encryption): every refusal sets the flag and a message", False),
         ("long-inputs", S.long_inputs_suite, S.falsify_long_inputs,
          "alg header names of 1-20, 180-300, 400, 511-513, 767/768, 1000-1025, 4096, 20000 characters (bare and appended to none/HS256/RS256) on an unkeyed and a keyed checker; JWKs whose kty/crv/kid/alg member has those lengths; contract flag <=> rc, flag => message on every answer", False),
         ("setget-codes", S.setget_suite, S.falsify_setget, "return code of every header/claim set/get/del equals the code stored in the value (executor prints both) and the typed-map answer", False),
